@@ -31,6 +31,7 @@ type RTarget struct {
 	Salt    string   `json:",omitempty"` // appended to the command as a no-op: changes the definition, not the outputs
 	SleepMs int      `json:",omitempty"`
 	Fail    bool     `json:",omitempty"` // command exits 3 (after logging S)
+	ExecOut bool     `json:",omitempty"` // command additionally makes its (single, regular-file) output executable
 	Extra   string   `json:",omitempty"` // extra raw keyword arguments, rendered verbatim (", key=value")
 	// Requires / Provides model plz's require/provide mechanism: when a target that requires key k
 	// depends on a target that provides {k: L}, the dependency is replaced by L.
@@ -347,6 +348,9 @@ func (r *Repo) Eval() (outs map[string][]OutEnt, ok map[string]bool) {
 			default: // cat
 				es = []OutEnt{{t.Outs[0], &Node{Name: t.Outs[0], Content: d}}}
 			}
+			if t.ExecOut && len(es) == 1 && !es[0].Node.Dir {
+				es[0].Node.Exec = true
+			}
 			outs[t.Label()] = es
 		}
 	}
@@ -470,6 +474,9 @@ func (t *RTarget) ShellCmd() string {
 	}
 	if t.Fail {
 		c += "exit 3; "
+	}
+	if t.ExecOut && t.Cmd != "multi" && t.Cmd != "dirk" && t.Cmd != "dirn" && t.Cmd != "defs" {
+		body += ` && chmod +x "$OUT"`
 	}
 	c += body + "; L E"
 	if t.Salt != "" {
